@@ -204,7 +204,8 @@ yaml.add_representer(types.MethodType, instancemethod_representer)
 
 def instancemethod_constructor(loader, node):
     name = loader.construct_scalar(node)
-    tok = name.split('of')
+    # the text is '<method> of <object>'; the object's text may contain 'of'
+    tok = name.split(' of ', 1)
     method = tok[0].strip()
     obj = 'dummy: '+ tok[1]
     obj = yaml.safe_load(obj)['dummy']
